@@ -126,3 +126,60 @@ if __name__ == '__main__':
     for n in range(1, 7):
         print(n, len(control_flow_shapes(n)), len(control_flow_shapes(n, loops=('while',), err=False)))
     for t, sp in control_flow_shapes(3)[-5:]: print(repr(t), sp)
+
+
+# --------------------------------------------------------------------------------------- functions / scopes (C05)
+BODY_ATOMS = ['Put 9003 into X', 'Put 9003 into Y', 'Put 9003 into Z', 'say X\nBuild it up', 'say Y\nPut 9003 into it', 'Z is 9003\nBuild it up',
+              'say X', 'say Y', 'Build X up', 'Let X be with Y', 'say it']
+PARAMS = [['X'], ['Y'], ['Z'], ['X', 'Y'], ['Y', 'X']]
+ARGS = ['X', 'Y', '9005']
+RETS = ['X', 'Y', 'it', 'X plus Y']
+
+
+def _renumber(text):
+    """placeholders that occur twice (an atom used twice) get distinct numbers: 9003 -> 9003, 9006, 9007 ...; returns (text, spec)"""
+    import re
+    seen = {}; nxt = [6]; spec = {}
+    def sub(m):
+        k = int(m.group(1))
+        if k not in seen: seen[k] = True; spec[f'n{k}'] = {}; return m.group(0)
+        n = nxt[0]; nxt[0] += 1
+        if n > 9: raise OverflowError
+        spec[f'n{n}'] = {}
+        return f'900{n}'
+    t = re.sub(r'\b900(\d)\b', sub, text)
+    return t, spec
+
+
+def function_shapes(max_body=1):
+    """global X, Y; one function F(params) with a body of <= max_body atoms and a return; one call with arguments drawn
+    from {X, Y, literal}; then the globals are printed"""
+    out = []
+    for params in PARAMS:
+        for args in itertools.product(ARGS, repeat=len(params)):
+            for nb in range(0, max_body + 1):
+                for body in itertools.product(BODY_ATOMS, repeat=nb):
+                    for ret in RETS:
+                        lines = ['X is 9001', 'Y is 9002', 'F takes ' + ' and '.join(params)] + list(body) + ['give back ' + ret, '',
+                                 'say F taking ' + ', '.join(args), 'say X', 'say Y']
+                        try: out.append(_renumber('\n'.join(lines) + '\n'))
+                        except OverflowError: pass
+    return out
+
+
+SCOPE_ATOMS = ['Z is 9002', 'Put 9003 into X', 'say it', 'Build it up', 'say X', 'say Z']
+
+
+def scope_shapes(max_len=2):
+    """global X; <= max_len statements, each an atom or an atom inside an if / a one-pass loop / a called function; then X and Z are printed"""
+    stmts = list(SCOPE_ATOMS)
+    for a in SCOPE_ATOMS:
+        stmts.append(f'If 9004\n{a}\n')
+        stmts.append(f'C is 0\nWhile C is less than 1\nBuild C up\n{a}\n')
+    out = []
+    for n in range(1, max_len + 1):
+        for seq in itertools.product(stmts, repeat=n):
+            lines = ['X is 9001'] + list(seq) + ['say X', 'say Z']
+            try: out.append(_renumber('\n'.join(lines) + '\n'))
+            except OverflowError: pass
+    return out
